@@ -807,6 +807,15 @@ def _sync_caller(*events, what='value', changed=None, callback=None, function=No
         return function()
 
 
+def _update_deps_caller(obj, attribute, *events):
+    """
+    Re-initialize the dependencies of obj routed through attribute. At
+    the module top level (and bound with partial, not a closure) so that
+    it is deep-copied and pickled together with the object it refers to.
+    """
+    obj.param._update_deps(attribute)
+
+
 def _m_caller(self, method_name, what='value', changed=None, callback=None):
     """
     Wrap a method call adding support for scheduling a callback
@@ -2369,12 +2378,9 @@ class Parameters:
         depth = subobjs.index(dep_obj)
         callback = None
         if depth > 0:
-            def callback(*events):
-                """
-                If a subobject changes, we need to notify the main
-                object to update the dependencies.
-                """
-                obj.param._update_deps(attribute)
+            # If a subobject changes, we need to notify the main
+            # object to update the dependencies.
+            callback = partial(_update_deps_caller, obj, attribute)
 
         p = '.'.join(dynamic_dep.spec.split(':')[0].split('.')[depth+1:])
         if p == 'param' or p.endswith('.param'):
@@ -5369,19 +5375,37 @@ class Parameterized(metaclass=ParameterizedMetaclass):
         # recreated and point to the new instance
         if _param__private.watchers:
             param_watchers = _param__private.watchers
+            rebound = {}
             for p, attrs in param_watchers.items():
                 for attr, watchers in attrs.items():
                     new_watchers = []
                     for watcher in watchers:
-                        watcher_args = list(watcher)
-                        if watcher.inst is not None:
+                        if watcher.inst is None or watcher.inst is self:
+                            # deepcopy and pickle restore a consistent object
+                            # graph: the watcher, the callable it invokes (also
+                            # when that is a method of another object, e.g. of
+                            # the parent depending on this sub-object) and the
+                            # bookkeeping that refers to it already point to
+                            # the new objects.
+                            new_watchers.append(watcher)
+                            continue
+                        # The state comes from another object (shallow copy):
+                        # rebind the watchers that called its own methods. A
+                        # watcher of several parameters must stay one object.
+                        if id(watcher) not in rebound:
+                            watcher_args = list(watcher)
+                            fn = watcher.fn
+                            function = getattr(fn, 'keywords', {}).get('function')
+                            if hasattr(fn, '_watcher_name'):
+                                if get_method_owner(function) is watcher.inst:
+                                    watcher_args[2] = _m_caller(
+                                        self, fn._watcher_name, fn.keywords.get('what', 'value'),
+                                        fn.keywords.get('changed'), fn.keywords.get('callback'))
+                            elif get_method_owner(fn) is watcher.inst:
+                                watcher_args[2] = getattr(self, fn.__name__)
                             watcher_args[0] = self
-                        fn = watcher.fn
-                        if hasattr(fn, '_watcher_name'):
-                            watcher_args[2] = _m_caller(self, fn._watcher_name)
-                        elif get_method_owner(fn) is watcher.inst:
-                            watcher_args[2] = getattr(self, fn.__name__)
-                        new_watchers.append(Watcher(*watcher_args))
+                            rebound[id(watcher)] = Watcher(*watcher_args)
+                        new_watchers.append(rebound[id(watcher)])
                     param_watchers[p][attr] = new_watchers
 
         state.pop('param', None)
